@@ -22,6 +22,8 @@ use hx_common::*;
 mod vect;
 #[path = "c10/ro.rs"]
 mod ro;
+#[path = "c10/pool.rs"]
+mod pool;
 
 // ---------------------------------------------------------------------------------------------
 // dynamic view stack
@@ -38,6 +40,14 @@ pub trait DynView: IoBufMut {
     fn reused_uninit(&self) -> bool;
     /// pointer and capacity of the root allocation *as the container itself reports them* (not via compio-buf)
     fn root_alloc(&mut self) -> (*mut u8, usize);
+    /// number of `Uninit` layers in the stack (structural)
+    fn uninit_layers(&self) -> usize {
+        0
+    }
+    /// the outermost layer is an `Uninit`
+    fn is_uninit_top(&self) -> bool {
+        false
+    }
 }
 
 pub type BV = Box<dyn DynView>;
@@ -57,6 +67,10 @@ impl DynView for Slice<BV> {
 
     fn reused_uninit(&self) -> bool {
         self.as_inner().reused_uninit()
+    }
+
+    fn uninit_layers(&self) -> usize {
+        self.as_inner().uninit_layers()
     }
 
     fn root_alloc(&mut self) -> (*mut u8, usize) {
@@ -80,6 +94,14 @@ impl DynView for Uninit<BV> {
     fn reused_uninit(&self) -> bool {
         catch(|| self.as_init().len()).map(|n| n > 0).unwrap_or(false)
             || self.as_inner().reused_uninit()
+    }
+
+    fn uninit_layers(&self) -> usize {
+        self.as_inner().uninit_layers() + 1
+    }
+
+    fn is_uninit_top(&self) -> bool {
+        true
     }
 
     fn root_alloc(&mut self) -> (*mut u8, usize) {
@@ -681,10 +703,97 @@ impl Machine {
                     other => bad.push(format!("view as_init after the fill is {other:?}, expected to start at {ou} and cover {k}")),
                 }
                 if !bad.is_empty() {
-                    let sig = if reused_before { "F6:uninit-second-fill" } else { "C10:fill-law" };
+                    // the known finding F6 is exactly: the re-used `Uninit` exposes the tail *behind* the bytes already
+                    // recorded (writable region displaced behind the start of the initialised region) while `advance_to` counts from the
+                    // original begin. Any other broken fill through a re-used `Uninit` is not that finding.
+                    let f6_shape = match (before.init, before.uninit) {
+                        // (under further slices the displacement stays: the writable region starts behind the
+                        // start of the initialised region)
+                        (Ok((oi, _)), Ok((ou, _))) => ou > oi,
+                        _ => false,
+                    };
+                    let sig = if reused_before && f6_shape { "F6:uninit-second-fill" } else { "C10:fill-law" };
                     ex.fail(sig, format!("{line} on {}: {}", show_obs(&before), bad.join("; ")));
                     ex.tag("fill-law-broken");
                 }
+                self.state_line(ex, line)
+            }
+            ["fillapp", h] => {
+                // what an appending reader does with ONE `Uninit` view: store at the front of `as_uninit()`, record
+                // with `advance(k)`; issued only on `Uninit` over a stack without further `Uninit` layers (structural)
+                let data = unhex(h);
+                let k = data.len();
+                let St::Buf(v) = &mut self.st else { unreachable!() };
+                if !(*v).is_uninit_top() || (*v).uninit_layers() != 1 {
+                    ex.tag("fillapp-not-uninit");
+                    return "contract".into();
+                }
+                let before = observe(v, &self.ri);
+                let Ok((ou, lu)) = before.uninit else { return "panic".into() };
+                let Ok((oi, li)) = before.init else { return "panic".into() };
+                if k > lu {
+                    ex.tag("fill-contract");
+                    return "contract".into();
+                }
+                // never hand a root container a length beyond its allocation (`Vec::set_len` beyond the capacity is UB;
+                // std's debug precondition check aborts the process): the view's own bookkeeping says the recorded
+                // length would end at `oi + li + k`
+                if oi + li + k > cap {
+                    ex.fail(
+                        "C10:uninit-append",
+                        format!(
+                            "{line} on {}: as_uninit() offers {lu} bytes at {ou} although {li} bytes were already filled through this view at {oi}: recording {k} more with advance() would set the root length to {} > capacity {cap}",
+                            show_obs(&before),
+                            oi + li + k
+                        ),
+                    );
+                    ex.tag("append-law-broken");
+                    return "contract-broken".into();
+                }
+                {
+                    let dst = (*v).as_uninit();
+                    for (i, b) in data.iter().enumerate() {
+                        dst[i].write(*b);
+                    }
+                }
+                if let Err(_) = catch(|| unsafe { (*v).advance(k) }) {
+                    return "panic".into();
+                }
+                ex.tag(if li > 0 { "fillapp-again" } else { "fillapp-first" });
+                let after = observe(v, &self.ri);
+                // ---- append law (implementation-only oracle): the bytes are where they were written, nothing else
+                // changed, the root's initialised length ends exactly behind them (grow-only roots: never shrinks), and
+                // the view shows everything filled through it so far, in order ----
+                let mut expect = before.mem.clone();
+                expect[ou..ou + k].copy_from_slice(&data);
+                let mut bad = vec![];
+                if after.mem != expect {
+                    bad.push(format!("root memory {} expected {}", hex(&after.mem), hex(&expect)));
+                }
+                if k > 0 && ou < oi + li {
+                    bad.push(format!("writable region {ou}+{lu} overlaps the {li} bytes already filled through this view at {oi}"));
+                }
+                if after.root_len < ou + k {
+                    bad.push(format!("bytes written at {ou}..{} but root len is {}", ou + k, after.root_len));
+                }
+                if after.root_len > before.root_len.max(ou + k) {
+                    bad.push(format!(
+                        "root len {} covers bytes never written (written {ou}..{}, root len before {})",
+                        after.root_len,
+                        ou + k,
+                        before.root_len
+                    ));
+                }
+                match after.init {
+                    Ok((oi2, li2)) if oi2 == oi && li2 == li + k && oi + li == ou => {}
+                    _ if k == 0 => {}
+                    other => bad.push(format!("view as_init after the fill is {other:?}, expected {oi}+{} ending at the written bytes {ou}+{k}", li + k)),
+                }
+                if !bad.is_empty() {
+                    ex.fail("C10:uninit-append", format!("{line} on {}: {}", show_obs(&before), bad.join("; ")));
+                    ex.tag("append-law-broken");
+                }
+                // the state line is printed without the general prefix monitor: a re-used `Uninit` is F6-view there
                 self.state_line(ex, line)
             }
             ["setlen", n] | ["advto", n] | ["adv", n] => {
@@ -1497,6 +1606,79 @@ fn gen_exhaustive(cases: &mut Vec<Case>, max_cap: usize) {
     }
 }
 
+/// repeated appending fills through ONE `Uninit` view (write at the front of `as_uninit()`, `advance(k)`), over every
+/// growable root kind, directly or under slices (also a cleared bounded window)
+fn gen_append(tier: &str, rng: &mut Rng, cases: &mut Vec<Case>) {
+    let thorough = tier == "thorough";
+    let kinds = ["vec", "bytesmut", "arrayvec", "smallvec", "refvec", "boxvec"];
+    // exhaustive small: cap 2..=4 (5 thorough), every len, two fills of every length
+    let mut idx = 0;
+    for kind in kinds {
+        let caps: Vec<usize> = if kind == "smallvec" { vec![8, 9] } else { (2..=if thorough { 5 } else { 4 }).collect() };
+        for cap in caps {
+            let lens: Vec<usize> = if kind == "smallvec" { vec![0, 5, 7] } else { (0..cap).collect() };
+            for len in lens {
+                let mem: Vec<u8> = (0..cap).map(|j| 0x61 + j as u8).collect();
+                for k1 in 0..=(cap - len).min(3) {
+                    for k2 in 0..=(cap - len - k1).min(3) {
+                        let d1: Vec<u8> = (0..k1).map(|j| 0x41 + j as u8).collect();
+                        let d2: Vec<u8> = (0..k2).map(|j| 0x78 + j as u8).collect();
+                        cases.push(Case {
+                            name: format!("appx-{idx}"),
+                            lines: vec![
+                                format!("root {kind} {len} {}", hex(&mem)),
+                                "uninit".into(),
+                                format!("fillapp {}", hex(&d1)),
+                                format!("fillapp {}", hex(&d2)),
+                                "end".into(),
+                            ],
+                        });
+                        idx += 1;
+                    }
+                }
+            }
+        }
+    }
+    let n = if thorough { 6_000 } else { 500 };
+    for i in 0..n {
+        let kind = *rng.pick(&kinds);
+        let cap = if kind == "smallvec" { rng.range(8, 16) as usize } else { rng.range(1, 16) as usize };
+        let len = rng.range(0, cap as u64) as usize;
+        let mem = fresh_bytes(rng, cap);
+        let mut lines = vec![format!("root {kind} {len} {}", hex(&mem))];
+        let mut room = cap - len;
+        match rng.below(4) {
+            0 => {
+                // a bounded window of the initialised bytes, emptied, then filled (the slice keeps its end)
+                let b = rng.range(0, len as u64) as usize;
+                let e = rng.range(b as u64, len as u64) as usize;
+                lines.push(format!("slice {b} {e}"));
+                lines.push("clear".into());
+                room = e - b;
+            }
+            1 => {
+                let b = rng.range(0, len as u64) as usize;
+                lines.push(format!("slice {b} -"));
+            }
+            _ => {}
+        }
+        lines.push("uninit".into());
+        for _ in 0..rng.range(2, 5) {
+            let hostile = rng.chance(1, 15);
+            let k = if hostile { room + 1 } else { rng.range(0, room.min(6) as u64) as usize };
+            lines.push(format!("fillapp {}", hex(&fresh_bytes(rng, k))));
+            if !hostile {
+                room -= k;
+            }
+            if rng.chance(1, 6) {
+                lines.push("query".into());
+            }
+        }
+        lines.push("end".into());
+        cases.push(Case { name: format!("app-{i}"), lines });
+    }
+}
+
 fn generate(tier: &str, rng: &mut Rng) -> Vec<Case> {
     let thorough = tier == "thorough";
     let mut cases = vec![];
@@ -1525,6 +1707,8 @@ fn generate(tier: &str, rng: &mut Rng) -> Vec<Case> {
     }
     vect::generate(tier, rng, &mut cases);
     ro::generate(tier, rng, &mut cases);
+    pool::generate(tier, rng, &mut cases);
+    gen_append(tier, rng, &mut cases);
     cases
 }
 
@@ -1536,6 +1720,10 @@ fn exec(case: &Case) -> Exec {
     }
     if case.lines.first().map(|l| l.starts_with("roroot") || l.starts_with("slicebytes")).unwrap_or(false) {
         ro::exec(case, &mut ex);
+        return ex;
+    }
+    if case.lines.first().map(|l| l.starts_with("pool ")).unwrap_or(false) {
+        pool::exec(case, &mut ex);
         return ex;
     }
     let mut m = Machine::new();
@@ -1558,7 +1746,7 @@ fn exec(case: &Case) -> Exec {
         } else {
             safe_apply(&mut m, l, &mut ex)
         };
-        if (l.starts_with("fill ") || l.starts_with("ext") || l.starts_with("wwrite")) && (o.starts_with("i=") || o.starts_with("ext:ok")) {
+        if (l.starts_with("fill ") || l.starts_with("fillapp ") || l.starts_with("ext") || l.starts_with("wwrite")) && (o.starts_with("i=") || o.starts_with("ext:ok")) {
             recorded = true;
         }
         if m.depth() > 0 {
